@@ -33,7 +33,7 @@ REPLY = {'read': 'reply', 'change': 'changed', 'do': 'done'}
 
 
 def shards(tier, seed):
-    return [{'idx': i, 'n': N_EXAMPLES[tier]} for i in range(16)]
+    return [{'idx': i, 'n': N_EXAMPLES[tier]} for i in range(16)] + [{'idx': i, 'part': 'systematic'} for i in range(len(SYSTEMATIC))]
 
 
 @st.composite
@@ -571,14 +571,38 @@ def check(ctx, case, preempt=None):
                 'results': [v[:3] for _, v in sorted(results.items())]}, every=97)
 
 
+SYSTEMATIC = [
+    # two requests with the same key at once: the second is parked until the first is answered (by a reply, by an error)
+    {'callers': [{'key': ['change', 'm:target'], 'delay': 0}, {'key': ['change', 'm:target'], 'delay': 0}],
+     'plan': [{'do': 'reply', 'k': 0}, {'do': 'reply', 'k': 0}]},
+    {'callers': [{'key': ['change', 'm:target'], 'delay': 0}, {'key': ['change', 'm:target'], 'delay': 0}, {'key': ['read', 'm:value'], 'delay': 0}],
+     'plan': [{'do': 'error', 'k': 0}, {'do': 'update', 'k': 0}, {'do': 'reply', 'k': 0}, {'do': 'reply', 'k': 0}]},
+    {'callers': [{'key': ['read', 'm:value'], 'delay': 0}, {'key': ['change', 'm:target'], 'delay': 0.5}],
+     'plan': [{'do': 'reply', 'k': 0}, {'do': 'drop', 'how': 'close'}]},
+]
+
+
+def systematic(ctx, which):
+    """every schedule with one forced switch (to each of three other threads) at every decision point of a fixed session"""
+    case = dict(SYSTEMATIC[which], kind='session', local_disconnect=None, schedule=[])
+    steps = run_session(case)['sched'].steps
+    for step in range(1, steps + 1):
+        for k in (1, 2, 3):
+            check(ctx, case, preempt={step: k})
+    ctx.extra.setdefault('one_preemption_complete', []).append(which)
+
+
 def run_shard(ctx, shard):
+    if shard.get('part') == 'systematic':
+        systematic(ctx, shard['idx'])
+        return
     drive(session(), lambda case: check(ctx, case), shard['n'], ctx.seed * 1000 + shard['idx'])
 
 
 def run_case(ctx, case):
     try:
         ok = len(case['callers']) >= 1 and all(c['key'] in KEYS for c in case['callers']) and \
-            all(i['do'] in ('reply', 'error', 'update', 'stray', 'sleep', 'drop', 'ignore') for i in case['plan'])
+            all(i['do'] in ('reply', 'reply-split', 'error', 'update', 'stray', 'sleep', 'drop', 'ignore') for i in case['plan'])
     except (KeyError, TypeError):
         ok = False
     if ok:
